@@ -347,7 +347,7 @@ def main(tier, seed, replay=None):
                    "components": {"schemas": dsch}}, ["ops:deep-diamond-graph"]))
     # small fixed specs around degenerate operation ids (empty / separator-only ids next to ids that share affixes)
     okr = {"200": {"description": "ok"}}
-    for ids in (["get_item_1", "get_item_2"], ["v1_list", "v1_2"], ["first_normal_op", ""], ["", "first_normal_op"], ["list_items_op", "get_items_op", ""], ["a_b", "_", "-"], ["", ""], ["x", "x_", "_x"]):
+    for ids in (["get_item_1", "get_item_2"], ["v1_list", "v1_2"], ["shape_list", "shape_type"], ["x_self", "x_crate", "x_super"], ["first_normal_op", ""], ["", "first_normal_op"], ["list_items_op", "get_items_op", ""], ["a_b", "_", "-"], ["", ""], ["x", "x_", "_x"]):
         paths = {f"/p{k}": {"get": {"operationId": oid, "responses": okr}} for k, oid in enumerate(ids)}
         cases.append(({"openapi": "3.1.0", "info": {"title": "t", "version": "1"}, "paths": paths, "components": {"schemas": {}}}, ["degenerate-ids:" + repr(ids)]))
     if replay:
